@@ -1537,6 +1537,16 @@ pub fn generate(seed: u64) -> C11Scenario {
                     {
                         let missing = gen::join(gen::parent(&victim_path), "does-not-exist.lua");
                         project.sources[victim].requires.push(missing);
+                        if rf.chance(1, 2) {
+                            // several missing requires with long non-ASCII names: a long
+                            // error message full of multi-byte characters
+                            for k in 0..3 {
+                                project.sources[victim].requires.push(gen::join(
+                                    gen::parent(&victim_path),
+                                    &format!("見つかりません-ドキュメント-été-ünï-{}.lua", k),
+                                ));
+                            }
+                        }
                         bad_files.push(victim_path);
                     }
                 }
@@ -1630,7 +1640,11 @@ pub fn generate(seed: u64) -> C11Scenario {
                 10 => {
                     // the destination is a symbolic link to /dev/full: every byte written
                     // fails with ENOSPC (real file system only)
-                    if expected.contains(&victim) && opts.output.is_some() {
+                    // (an output of zero bytes is "written" to a full device without error)
+                    if expected.contains(&victim)
+                        && opts.output.is_some()
+                        && project.sources[victim].body_index < corpus::FIRST_EMPTY_BODY
+                    {
                         extra.push(FsEntry {
                             path: format!("@mirror:{}", victim_path),
                             body: Body::Symlink("/dev/full".to_owned()),
@@ -1651,8 +1665,9 @@ pub fn generate(seed: u64) -> C11Scenario {
         }
     }
 
-    // cycle members are bad files
-    {
+    // cycle members are bad files (when requires are inlined: without bundling a cycle of
+    // requires is just a cycle of strings)
+    if project.bundle.is_some() {
         let paths: Vec<String> = project.sources.iter().map(|s| s.path.clone()).collect();
         for (i, p) in paths.iter().enumerate() {
             // does i reach itself?
@@ -1780,9 +1795,17 @@ pub fn generate(seed: u64) -> C11Scenario {
             "-- stale output from an earlier run\n{}return 'stale'\n",
             "local filler = 'xxxxxxxxxxxxxxxxxxxxxxxxxxxxxxxxxxxxxxxxxxxxxxxxxxxxxxxxxxxxxxxx'\n".repeat(40)
         );
+        // ... sometimes not even text (an old compiled file, another encoding): darklua
+        // only ever overwrites a destination, it has no business reading it
+        let binary = rk.chance(1, 4);
         for (i, m) in lay.mirror.values().enumerate() {
             if (i + rk.below(2)) % 2 == 0 && !entries.iter().any(|e| e.path == *m) {
-                set_entry(&mut entries, m, Body::Text(junk.clone()));
+                let body = if binary && backend != Backend::Memory {
+                    Body::from_bytes(&[0x1b, b'L', b'u', b'a', 0xff, 0xfe, 0x00, 0xc3, 0x28, b'\n'])
+                } else {
+                    Body::Text(junk.clone())
+                };
+                set_entry(&mut entries, m, body);
             }
         }
     }
